@@ -40,6 +40,10 @@ CHECKS = {
   text="Theorems in coq/Props/C10.v: a node loaded as class c has exactly the hooks of savorize_order applied, in order; for single-inheritance registries savorize_order = the registered ancestor chain (root first, c last) filtered to classes defining the hook in their own body, so no other class's hook runs; under an acyclicity witness the chain has no duplicates and is strictly ordered ancestors-first; savorize sits after recognition and before attribute processing (stage equation of process); a SeasoningError from savorize makes process return RecognitionError. Sweeten (dump side) clause: covered by the tie only until the Represent model is proved (see DESIGN).",
   note="Trusted: Coq kernel; tie is EXHAUSTIVE over chains of length <= 3 (thorough 4): every subset of classes defining _yatiml_savorize x every subset defining _yatiml_recognize x unregistered mix-in with its own hooks x target class x 5 positions: traces recorded by the generated hooks vs the property's rule computed from the live classes, vs Coq savorize_order, and load outcome vs model. The registry handed to the model holds cls.__dict__ hooks only.",
   technique=TECH, design='6 C10'),
+ 'C08': dict(
+  text="Theorem C08_load_error_closed (coq/Props/C08.v): for every registry whose savorize hooks fail only with SeasoningError/RecognitionError, whose declared types are supported, every oracle whose conversion errors concern core-tagged scalars, and EVERY composed document, load returns a value or RecognitionError or a YAML error -- no other exception class (proved by walking every partial operation of recognize, process and construct; the 'good' predicate is closed under bind). Constructors and string-like constructors may raise anything. Half of the property lives before the model: unparseable text raising yaml.YAMLError is observed, not proved.",
+  note="Trusted: Coq kernel; load model tied to yatiml on the malformed stream (mutated documents, duplicate/complex/merge keys, explicit core tags on wrong content, cyclic aliases, token soup; ~1700 quick / ~55k thorough) comparing the exception CLASS with the model; the class of the exception leaving load() is judged directly. Crashes inside a user hook body (protocol violation by the hook) are outside the statement.",
+  technique=TECH, design='6 C08, 9'),
 }
 
 REASON_TODO = 'check not built yet (work in progress; DESIGN.md section 11 gives the build order)'
